@@ -4,7 +4,7 @@
    signals with a value table, the kind only; the full statement is
    Acme.C10.Proofs.import_signal_faithful_full_statement. *)
 From Coq Require Import String ZArith List.
-From Acme.C10 Require Import DbcDoc BusModel Import Bits BitsProofs Proofs ProofsEnum ProofsLayout ProofsFaithful ProofsMux ProofsExtMux ProofsDecode ProofsIds ProofsEnumMux ProofsAttrs ProofsAttrsAll ProofsTraverse ProofsAttrsSig.
+From Acme.C10 Require Import DbcDoc BusModel Import Bits BitsProofs Proofs ProofsEnum ProofsLayout ProofsFaithful ProofsMux ProofsExtMux ProofsDecode ProofsIds ProofsEnumMux ProofsAttrs ProofsAttrsAll ProofsTraverse ProofsAttrsSig ProofsExtAbs.
 Import ListNotations.
 Open Scope Z_scope.
 
@@ -213,3 +213,12 @@ Theorem import_attributes_spec : forall d b, import d = Ok b ->
     sm_ok (b_messages b) sm /\ SAs d amap sm (b_messages b).
 Proof. exact ProofsAttrsSig.import_attributes_spec. Qed.
 Print Assumptions import_attributes_spec.
+
+(* messages with SEVERAL multiplexor switches (each of a non-negative size, as the parser delivers): every
+   signal of the file is present with the file's ABSOLUTE start position, composed along the chain of nested
+   multiplexers (parent position + selector width + relative position), and every switch is a multiplexer
+   whose SELECTOR WIDTH is the file's size *)
+Theorem import_ext_mux_abs : forall d b, import d = Ok b ->
+  Forall2 (fun dm m => ext_mux_abs dm (m_signals m)) (d_messages d) (b_messages b).
+Proof. exact ProofsExtAbs.import_ext_mux_abs. Qed.
+Print Assumptions import_ext_mux_abs.
